@@ -40,7 +40,8 @@ THEOREMS = {
             ("host_iff", "isAsciiDomain_iff_spec", "specHost_iff", "host6531_sound", "isAsciiDomain_nonpos")] + [("Eav.Lemmas.Domain", "Eav.domLoop_ok")],
     "C05": _gt("errEnum_eq") + [("Eav.Props.C05", n) for n in
             ("Eav.isIpv4_literal", "Eav.isIpv6_upper", "Eav.isIpv6_lower")] + [("Eav.Props.C05", "Eav.Props.C05." + n) for n in
-            ("literal_upper", "literal_lower", "literal_family", "literal_every_mode", "literal_accepted_record")],
+            ("literal_upper", "literal_lower", "literal_family", "literal_every_mode", "literal_accepted_record",
+             "literalUpper_iff", "literalLower_iff", "literal_sandwich")] + [("Eav.Lemmas.IpSpec", "Eav.v6_4291_iff"), ("Eav.Lemmas.IpSpec", "Eav.v6_5321_iff")],
     "C06": _gt("init_sets_all", "init_fields", "limits_eq", "lenFilter_eq") + [("Eav.Props.C06", "Eav.Props.C06." + n) for n in
             ("isAsciiDomain_ok", "isIpv4_ok", "isIpv6_ok", "checkIp_ok", "isSpecialDomain_ok", "checkTld_ok", "isUtf8Domain_ok", "isEmail_ok", "step_isEmail_ok")] +
            [("Eav.Props.C13", "Eav.Props.C13." + n) for n in ("run_inv", "free_releases", "lifecycle_releases")] +
